@@ -20,6 +20,46 @@ from .common import TRUSTED_BASE, cfg_nodes_for, expanded_facts, inl, loop_runs_
 from .keyterm import branches, all_conj
 
 
+def check_wrap_condition(A, R, rid):
+    """_apply: whether a string becomes a ReprStr (rendered by its original text) depends on the string alone - "a placeholder
+    matched" - never on what the placeholders were replaced with."""
+    from ..terms import cond_leaves, contains, dag_nodes, pretty
+    f = A.func('search_and_replace_placeholders')
+    fap = f.nested.get('_apply') if f is not None else None
+    if fap is None:
+        R.undecided(rid, '_apply', 'nested _apply not found', where=where(f) if f is not None else '-')
+        return
+    t = A.sym.func_term(fap, None)
+    strp = ('p', fap.params[0])
+    conds = []
+
+    def walk(x, path):
+        if not isinstance(x, tuple):
+            return
+        if x[0] == 'cond':
+            walk(x[2], path + [(x[1], True)])
+            walk(x[3], path + [(x[1], False)])
+        elif x[0] == 'new' and x[1] == 'ReprStr':
+            conds.append(path)
+    walk(t, [])
+    if not conds:
+        R.undecided(rid, '_apply', f'no path returning a ReprStr recognised in {pretty(t)[:120]}', where=where(fap))
+        return
+
+    def text_dependent(c):
+        """the condition looks at the substituted text (result of re.sub / element 0 of re.subn)"""
+        for x in dag_nodes(c):
+            if x[0] == 'call' and str(x[1]).split('.')[-1] == 'sub':
+                return True
+            if x[0] == 'index' and x[1][0] == 'call' and str(x[1][1]).split('.')[-1] == 'subn' and x[2] == ('lit', 0):
+                return True
+        return False
+    bad = sorted({pretty(c)[:100] for path in conds for c, pol in path if text_dependent(c)})
+    R.check(not bad, rid, '_apply: when a string is wrapped', key_of('wrap-condition', bad), 'wrapped whenever a placeholder matched (count of matches), whatever it was replaced with',
+            f'a string is wrapped into ReprStr only when `{bad[0] if bad else ""}`, i.e. depending on the substituted text: a string whose placeholders stay unresolved remains a plain str and is rendered '
+            'differently (quoted raw instead of repr of the original), so the same config text gets different storage keys with and without the variable defined', where=where(fap))
+
+
 def run(A, R: Report, thorough: bool):
     R.explanation = ('Structural rules on the recursive traversal (both container branches iterate everything and recurse), CFG dominance of the idempotence guard, the symbolic term of the '
                      'replacement callback, an encoding-level (units) analysis of ReprStr, CFG ordering in Config._prepare / Context.prepare_context, and the parsed AST of the placeholder '
@@ -313,6 +353,14 @@ def run(A, R: Report, thorough: bool):
             continue
         ok, why = _pattern_ok(parsed)
         R.check(ok, 'R11.6', f'_apply: pattern {pat.value!r}', key_of('pattern', pat.value), 'brace-delimited, non-greedy / brace-free name', f'pattern {pat.value!r}: {why}', where=where(fap, c))
+
+    # substitution is done in place on the config's data: values taken over from a context must be the config's own copies
+    from .c09 import check_context_isolation
+    R.rule('R11.10', 'what is substituted in place is the config\'s own copy: context values reach a config only through deepcopy', floor=2)
+    check_context_isolation(A, R, 'R11.10')
+
+    R.rule('R11.11', 'a string is turned into a ReprStr whenever a placeholder matched in it, independent of the replacement values', floor=1)
+    check_wrap_condition(A, R, 'R11.11')
 
 
 def _pattern_ok(parsed):
